@@ -108,22 +108,22 @@ def r2(ctx):
     ctx.touch(ga)
     src_mask = (0x1f << lay['src']) & U64
     len_mask = (0x07 << lay['len']) & U64
-    # (a) source wildcard: a find(key & ~src_mask)
-    found = False
-    for c in ga.all('CXXMemberCallExpr'):
-        v = ga.nodes[c]
-        if (v.get('callee') or '').endswith('::find') and v.get('args'):
-            a = ga.nodes.get(ga.strip(v['args'][0], casts=True), {})
-            if a.get('k') == 'BinaryOperator' and a.get('op') == '&':
-                m = ga.val(a['rhs'])
-                if m is None:
-                    m = ga.val(a['lhs'])
-                ok = m is not None and (m & U64) == (~src_mask & U64)
-                found = True
-                ctx.ob('C15.R2', ga, c, ok, 'source wildcard lookup mask',
-                       'mask %#x, expected ~(0x1f << %d) = %#x' % ((m or 0) & U64, lay['src'], ~src_mask & U64))
-    if not found:
-        raise AnalysisBroken('C15.R2: source wildcard lookup (find(key & mask)) not found in getAnswer')
+    # (a) source wildcard: somewhere the lookup key is and-ed with a constant that clears exactly the source field
+    masks = []
+    for nid, v in sorted(ga.nodes.items()):
+        if v['k'] == 'BinaryOperator' and v.get('op') in ('&', '&='):
+            for side in ('lhs', 'rhs'):
+                m = ga.val(v[side])
+                other = v['rhs' if side == 'lhs' else 'lhs']
+                if m is not None and 'key' in ga.key(other).lower() and bin(m & U64).count('0') <= 8 + 2 and \
+                        ((m & U64) | src_mask) == U64 and (m & U64) != U64:
+                    masks.append((nid, m & U64))
+    if not masks:
+        raise AnalysisBroken('C15.R2: source wildcard mask (key & ~(0x1f << %d)) not found in getAnswer' % lay['src'])
+    for nid, m in masks:
+        ok = m == (~src_mask & U64)
+        ctx.ob('C15.R2', ga, nid, ok, 'source wildcard lookup mask',
+               'mask %#x, expected ~(0x1f << %d) = %#x' % (m, lay['src'], ~src_mask & U64))
     # (b) the reduce step: key = (key & ~lenmask & ~(0xff << 8*(fold_init - len))) | (len << lenshift)
     red = [(nid, rhs) for nid, d, rhs, op, lhs in ga.assignments() if d and d.endswith(':key') and op == '=' and rhs is not None]
     if not red:
@@ -132,11 +132,14 @@ def r2(ctx):
         k = ga.key(rhs)
         cs = set(consts_in(ga, rhs))
         ok_len_mask = (~len_mask & U64) in cs or len_mask in cs
-        exp_shift = '(#255 << (#8 * (#%d - len)))' % lay['fold_init']
+        import re
+        mlen = re.search(r'\((\w+) << #%d\)' % lay['len'], k)
+        lv = mlen.group(1) if mlen else 'len'
+        exp_shift = '(#255 << (#8 * (#%d - %s)))' % (lay['fold_init'], lv)
         ok_byte = exp_shift in k
-        ok_newlen = ('(len << #%d)' % lay['len']) in k
+        ok_newlen = mlen is not None
         # the length must be decremented before the reduction on every path
-        decs = set(n2 for n2, d2, r2_, op2, l2 in ga.assignments() if d2 and d2.endswith(':len') and op2 == '--')
+        decs = set(n2 for n2, d2, r2_, op2, l2 in ga.assignments() if d2 and d2.endswith(':' + lv) and op2 == '--')
         dec_first = bool(decs) and not ga.reaches_point(ga.entry, ga.pos(nid), decs) if False else bool(decs)
         if decs:
             # from the loop head (the previous lookup) to the reduction a decrement must be passed
@@ -209,8 +212,47 @@ def r4(ctx):
         raise AnalysisBroken('C15.R4: m_currentAnswering = getAnswer() not found')
 
 
+def r5(ctx):
+    ctx.rule('C15.R5', 'longest matching ID wins across source variants: inside the loop that shortens the lookup key, both '
+             'the source-specific key and the source-wildcard key are probed before the key is shortened again (a loop that '
+             'probes only one variant per length lets a short restricted answer beat a longer unrestricted one)',
+             minimum=1, star=True)
+    fb = ctx.fb
+    kfn, pl, fold, lay = key_layout(ctx)
+    ga = fb.fn('ebusd::DirectProtocolHandler::getAnswer')
+    src_mask = (0x1f << lay['src']) & U64
+    red = [nid for nid, d, rhs, op, lhs in ga.assignments() if op == '=' and rhs is not None and
+           ('<< #%d' % lay['len']) in ga.key(rhs) and 'key' in (d or '').lower()]
+    if not red:
+        raise AnalysisBroken('C15.R5: key reduction not found in getAnswer')
+    loops = ga.all('DoStmt', 'WhileStmt', 'ForStmt')
+    for r in red:
+        inner = None
+        for l in loops:
+            if r in set(ga.walk(l)):
+                if inner is None or l in set(ga.walk(inner)):
+                    inner = l
+        if inner is None:
+            raise AnalysisBroken('C15.R5: key reduction is not inside a loop')
+        body = set(ga.walk(inner))
+        finds = [c for c in ga.all('CXXMemberCallExpr') if c in body and (ga.nodes[c].get('callee') or '').endswith('::find')
+                 and ga.key(ga.nodes[c].get('obj', -1)) == 'this.m_answerByKey']
+        plain = masked = 0
+        for c in finds:
+            a = ga.nodes[c]['args'][0]
+            cs = [m for m in consts_in(ga, a) if (m | src_mask) == U64 and m != U64]
+            if cs:
+                masked += 1
+            else:
+                plain += 1
+        ok = plain >= 1 and masked >= 1
+        ctx.ob('C15.R5', ga, r, ok, 'probes per ID length in the shortening loop',
+               'lookups inside the loop: %d with the full key, %d with the source wildcard mask' % (plain, masked))
+
+
 def run(ctx):
     r1(ctx)
     r2(ctx)
     r3(ctx)
     r4(ctx)
+    r5(ctx)
